@@ -139,7 +139,7 @@ func (g *c38Gen) build(t reflect.Type, path string) reflect.Value {
 	}
 	switch t.Kind() {
 	case reflect.String:
-		alts := []string{"typical", "", "ü✓ \"quoted\" \\ /", strings.Repeat("x", 300), "0001"}
+		alts := []string{"typical", "", "ü✓ \"quoted\" \\ /", strings.Repeat("x", 300), "0001", "  padded\tby whitespace \n", " "}
 		if strings.HasSuffix(path, "ModuleAccount.Name") {
 			// a module account always has a name (an unnamed one without permissions is byte-identical to the
 			// encoding of its embedded base account and is not a state the keeper creates)
